@@ -314,13 +314,33 @@ func (g *VCGen) typeFact(term string, t types.Type) string {
 	}
 	switch t.Underlying().(type) {
 	case *types.Slice:
-		return fmt.Sprintf("(and (<= 0 (s.off %s)) (<= 0 (s.len %s)) (<= (s.len %s) (s.cap %s)) (>= (s.base %s) 0) (=> (= (s.base %s) 0) (= (s.cap %s) 0)))", term, term, term, term, term, term, term)
+		bound := ""
+		if st, ok := t.Underlying().(*types.Slice); ok && !zeroSized(st.Elem()) {
+			// the Go runtime cannot allocate more than 2^48 bytes: non-empty elements bound the capacity
+			bound = fmt.Sprintf(" (<= (+ (s.off %s) (s.cap %s)) 281474976710656)", term, term)
+		}
+		return fmt.Sprintf("(and (<= 0 (s.off %s)) (<= 0 (s.len %s)) (<= (s.len %s) (s.cap %s)) (>= (s.base %s) 0) (=> (= (s.base %s) 0) (= (s.cap %s) 0))%s)", term, term, term, term, term, term, term, bound)
 	case *types.Pointer, *types.Map, *types.Chan:
 		if g.so.sortOf(t) == "Int" {
 			return fmt.Sprintf("(>= %s 0)", term)
 		}
 	}
 	return g.specialFact(term, t)
+}
+
+func zeroSized(t types.Type) bool {
+	switch u := t.Underlying().(type) {
+	case *types.Struct:
+		for i := 0; i < u.NumFields(); i++ {
+			if !zeroSized(u.Field(i).Type()) {
+				return false
+			}
+		}
+		return true
+	case *types.Array:
+		return u.Len() == 0 || zeroSized(u.Elem())
+	}
+	return false
 }
 
 // allocatedFact: refs inside the value are allocated (< nextRef)
